@@ -167,6 +167,13 @@ def _holds_for_2d(g, ndim=2):
         if z[0] == "call" and z[1] == "numpy.ndim":
             return const(2)
         return None
+    # the truthiness of shape[k:] ("is there a k-th axis?") is ndim > k
+    ga = g.single_atom()
+    if ga is not None and ga[0] == "sub":
+        b, sl = ga[1].single_atom(), ga[2].single_atom()
+        if b is not None and ((b[0] == "getattr" and b[2] == "shape") or (b[0] == "call" and b[1] == "numpy.shape")) and sl is not None and sl[0] == "slice" \
+                and sl[1].is_const() and sl[2] == T.NONE and sl[3] == T.NONE:
+            return ndim > int(sl[1].const_value())
     return T.subst(g, f) == T.TRUE
 
 
